@@ -187,6 +187,15 @@ def report_failures(sim, failures, minimise_budget_s, findings=None):
         seen.add(key)
         sig = sim.signature(small, viol)
         entry = known.match(prop, viol.clause, sig, findings)
+        if entry is not None:
+            # a known finding must explain the failure as it was FOUND, not only what minimisation turned it into
+            # (simplification passes may move a tolerance or a start vector into a predicate)
+            try:
+                _, viol0 = sim.execute(f["trace"], keep_log=False, collect=False)
+            except Inconclusive:
+                viol0 = None
+            if viol0 is None or known.match(prop, viol0.clause, sim.signature(f["trace"], viol0), [entry]) is None:
+                entry = None
         payload = {"property": prop, "clause": viol.clause, "message": viol.message,
                    "signature": sig, "trace": small,
                    "found": {"run": f["run"], "variant": f["variant"], "minimise_tests": budget.tests},
